@@ -114,14 +114,16 @@ def Agrees (tag : OvTag) : Res SNum → Ideal → Prop
 
 /-! ## the two open defect classes of the narrowing conversion, and the side conditions -/
 
-/-- class `C11.narrowing_drops_all_digits`: the exponent is raised by at least the source's digits -/
+/-- class `C11.narrowing_drops_all_digits`: the exponent is raised by more than the source's digits
+(raising it by exactly the digit count goes through an `elastic_integer<0>`, whose range is `[0, 0]`) -/
 def NarrowingDropsAllDigits (E : Int) (x : SNum) : Prop :=
-  x.exp < E ∧ x.digits ≤ (E - x.exp).toNat
+  x.exp < E ∧ x.digits < (E - x.exp).toNat
 
 /-- class `C11.rounded_value_exceeds_intermediate_digits`: the rounded quotient has magnitude
-`2^(digits − k)`, one above what the intermediate `digits − k` digits hold -/
+`2^(digits − k)`, one above what the intermediate `digits − k` digits hold (`k ≤ digits`; for
+`k = digits` the intermediate type holds only `0`) -/
 def RoundedExceedsIntermediate (c : Cfg) (E : Int) (x : SNum) : Prop :=
-  x.exp < E ∧ (E - x.exp).toNat < x.digits ∧
+  x.exp < E ∧ (E - x.exp).toNat ≤ x.digits ∧
     (roundDiv (rmode c.mode) x.value (2^(E - x.exp).toNat)).natAbs > 2^(x.digits - (E - x.exp).toNat) - 1
 
 instance (E : Int) (x : SNum) : Decidable (NarrowingDropsAllDigits E x) := by
